@@ -89,6 +89,9 @@ Definition mk_env (x : etables) : menv :=
                            | None => false
                            end |}.
 
+Definition tables_in_fragment (x : etables) : bool :=
+  forallb (fun oq => match oq with Some q => in_fragment (x_ftypes x) q | None => true end) (x_groups x).
+
 (* ---- equality of observations ------------------------------------------------------------------------ *)
 Definition contact_obs_eqb (a b : contact) : bool :=
   text_eqb (c_name a) (c_name b) && N.eqb (c_lang a) (c_lang b) && status_eqb (c_status a) (c_status b)
@@ -137,7 +140,7 @@ Definition check_m (k : mcase) : bool :=
   let '(c2, evs2, m2) := apply E (k_fresh k + 1) (k_mod k) c1 in
   contact_obs_eqb c1 (k_o_contact k) && events_eqb evs1 (k_o_events k) && Bool.eqb m1 (k_o_modified k)
   && contact_obs_eqb c2 (k_o_contact2 k) && events_eqb evs2 (k_o_events2 k) && Bool.eqb m2 (k_o_modified2 k)
-  && mod_env_ok E (k_mod k) (k_contact k).
+  && mod_env_ok E (k_mod k) (k_contact k) && tables_in_fragment (k_tables k).
 
 (* ---- a sprint: the kind of engine call and the modifiers of the executed actions, in order ------------ *)
 Record scase := {
@@ -148,7 +151,7 @@ Record scase := {
 Definition check_s (k : scase) : bool :=
   let E := mk_env (s_tables k) in
   let '(c1, evs1) := run_sprint E (s_kind k) (s_acts k) (s_contact k) in
-  contact_obs_eqb c1 (s_o_contact k) && events_eqb evs1 (s_o_events k).
+  contact_obs_eqb c1 (s_o_contact k) && events_eqb evs1 (s_o_events k) && tables_in_fragment (s_tables k).
 
 Fixpoint mismatches_from {A : Type} (chk : A -> bool) (i : N) (ks : list A) : list N :=
   match ks with
